@@ -10,7 +10,7 @@
  *
  * usage:
  *   c04_faults faults <op> <entry> <file> <kfrom> <kto> <stride> [nframes]
- *        op    = load | test | start | restart | smixload | smixstart
+ *        op    = load | test | start | restart | startsmix (2 smix channels reserved) | smixload | smixstart
  *        entry = path | mem | file | cb        (start/restart: how the module is loaded)
  *        k runs over kfrom, kfrom+stride, ... <= min(kto, N-1); kto=-1: all; kfrom=-1: baseline only;
  *        stride=-T: choose the stride so that about T indices are tried
@@ -465,6 +465,7 @@ struct cbsrc {
 	long fail_from;		/* read call index from which reads fail (-1 never) */
 	int fail_mode;		/* 0: short read (partial), 1: nothing */
 	int tell_fails;
+	int seek_fails;
 };
 
 static unsigned long cb_read(void *dest, unsigned long len, unsigned long nmemb, void *priv)
@@ -493,6 +494,8 @@ static int cb_seek(void *priv, long off, int whence)
 {
 	struct cbsrc *c = (struct cbsrc *)priv;
 	long np;
+	if (c->seek_fails)
+		return -1;
 	switch (whence) {
 	case SEEK_SET:
 		np = off;
@@ -906,7 +909,7 @@ static void rel_evaluate(const char *tag, int ctx_alive)
 /* the faulted operations                                              */
 /* ------------------------------------------------------------------ */
 
-enum { OP_LOAD, OP_TEST, OP_START, OP_RESTART, OP_SMIXLOAD, OP_SMIXSTART };
+enum { OP_LOAD, OP_TEST, OP_START, OP_RESTART, OP_SMIXLOAD, OP_SMIXSTART, OP_STARTSMIX };
 
 struct base {
 	int rc, n;		/* return code and allocator calls of the unfaulted operation */
@@ -973,6 +976,7 @@ static int run_case(int op, struct source *src, int k, int isbase)
 		break;
 	case OP_START:
 	case OP_RESTART:
+	case OP_STARTSMIX:
 		rc = src_load(src, ctx);
 		rel_evaluate("preload", 1);
 		if (rc < 0) {
@@ -985,6 +989,13 @@ static int run_case(int op, struct source *src, int k, int isbase)
 		if (op == OP_RESTART) {
 			xmp_start_player(ctx, 22050, 0);
 			xmp_play_frame(ctx);
+		}
+		if (op == OP_STARTSMIX && xmp_start_smix(ctx, 2, 1) < 0) {
+			printf("skip smix setup failed\n");
+			src_finish(src);
+			xmp_free_context(ctx);
+			rel_evaluate("free", 0);
+			return 0;
 		}
 		win_begin(k);
 		rc = xmp_start_player(ctx, 22050, 0);
@@ -1021,7 +1032,7 @@ static int run_case(int op, struct source *src, int k, int isbase)
 	rel_problems = 0;
 	state = xmp_get_player(ctx, XMP_PLAYER_STATE);
 
-	if (op == OP_START || op == OP_RESTART) {
+	if (op == OP_START || op == OP_RESTART || op == OP_STARTSMIX) {
 		if (isbase && rc == 0) {
 			base.amiga = 0;
 #ifdef LIBXMP_PAULA_SIMULATOR
@@ -1103,7 +1114,7 @@ static int run_case(int op, struct source *src, int k, int isbase)
 			       (unsigned long long)base.mdig);
 			viol++;
 		}
-	} else if (op == OP_START || op == OP_RESTART || op == OP_SMIXLOAD) {
+	} else if (op == OP_START || op == OP_RESTART || op == OP_STARTSMIX || op == OP_SMIXLOAD) {
 		if (rc == 0 && op != OP_SMIXLOAD)
 			xmp_end_player(ctx);
 		md = module_digest(ctx);
@@ -1120,7 +1131,7 @@ static int run_case(int op, struct source *src, int k, int isbase)
 		}
 	}
 
-	if (op == OP_SMIXLOAD || op == OP_SMIXSTART)
+	if (op == OP_SMIXLOAD || op == OP_SMIXSTART || op == OP_STARTSMIX)
 		xmp_end_smix(ctx);
 	xmp_free_context(ctx);
 	rel_evaluate("free", 0);
@@ -1170,6 +1181,8 @@ static int parse_op(const char *s)
 		return OP_START;
 	if (!strcmp(s, "restart"))
 		return OP_RESTART;
+	if (!strcmp(s, "startsmix"))
+		return OP_STARTSMIX;
 	if (!strcmp(s, "smixload"))
 		return OP_SMIXLOAD;
 	if (!strcmp(s, "smixstart"))
@@ -1326,7 +1339,7 @@ static int cmd_own(int argc, char **argv)
 	}
 	/* cbopen refusing the callbacks: close must still be called exactly once */
 	src_init(&bad, E_CB, argv[2]);
-	for (i = 0; i < 4; i++) {
+	for (i = 0; i < 5; i++) {
 		track_reset();
 		src_prepare(&bad);
 		nocb = cbs;
@@ -1338,6 +1351,8 @@ static int cmd_own(int argc, char **argv)
 			nocb.tell_func = NULL;
 		if (i == 3)
 			bad.cb.tell_fails = 1;	/* hio_open_callbacks: size < 0 */
+		if (i == 4)
+			bad.cb.seek_fails = 1;	/* hio_open_callbacks: seek to the end fails */
 		fd0 = count_fds();
 		ctx = xmp_create_context();
 		win_begin(-1);
@@ -1354,6 +1369,8 @@ static int cmd_own(int argc, char **argv)
 		src_prepare(&bad);
 		if (i == 3)
 			bad.cb.tell_fails = 1;
+		if (i == 4)
+			bad.cb.seek_fails = 1;
 		win_begin(-1);
 		rc = xmp_test_module_from_callbacks(&bad.cb, nocb, &ti);
 		win_end();
